@@ -328,6 +328,8 @@ func firstDiff(a, b []byte) int {
 func runSeq(run *ev.Run, e *env, caseID string, s seq) (classes map[string]bool, completed bool) {
 	classes = map[string]bool{}
 	e.n++
+	var nops int64
+	defer func() { run.Count("ops", nops) }()
 	path := filepath.Join(e.dir, fmt.Sprintf("ref-%d", e.n))
 	defer os.Remove(path)
 
@@ -467,7 +469,7 @@ func runSeq(run *ev.Run, e *env, caseID string, s seq) (classes map[string]bool,
 			// compared below for every step
 		}
 		classes[class] = true
-		run.Count("ops", 1)
+		nops++
 		if !ok {
 			return classes, false
 		}
@@ -657,9 +659,9 @@ func TestC12(t *testing.T) {
 	run.Assume("error values and EOF signalling are not compared; seeks outside [0,size] are not generated (DESIGN 3.40)")
 
 	const workers = 8
-	total := run.N(6000, 500000)
+	total := run.N(5000, 150000)
 	per := total / workers
-	conc := run.N(400, 24000) / workers
+	conc := run.N(400, 8000) / workers
 	root := ev.TempDir(t, "c12-")
 	subjects := []string{"bufrw", "memfile", "bufrw", "memfile", "bufreader"}
 
